@@ -21,8 +21,8 @@ RULE = ('names (24, incl. spaces, newlines, %, leading -, non-ASCII, 255 bytes) 
         'restricts names to 12 (incl. trailing blank / tab / newline inside / %XX / leading dash / non-ASCII / 255 bytes), scopes to 2 and histories to 3; non-trivial = listing printed and index chosen; distinct = '
         'outcome class x all dimensions')
 NAMES = ['a.trashinfo.bak', 'a', 'a b', ' lead', 'trail ', 'a\nb', 'a\rb', 'tab\t', '%41', 'a%', '%', '-x', '--', 'é', '日本', '.hidden',
-         'a.trashinfo', '*?[', '=', '#', '+', '&;', '"\'', '\\', 'L' * 255, '..notes', '...', '~', '~u']
-QNAMES = ['a', 'trail ', 'a\nb', '%41', '-x', '日本', 'tab\t', 'L' * 255, 'a.trashinfo.bak', '.hidden', '..notes', '...', '~']
+         'a.trashinfo', '*?[', '=', '#', '+', '&;', '"\'', '\\', 'L' * 255, '..notes', '...', '~', '~u', 'e\u0301x', '\u212b']
+QNAMES = ['a', 'trail ', 'a\nb', '%41', '-x', '日本', 'tab\t', 'L' * 255, 'a.trashinfo.bak', '.hidden', '..notes', '...', '~', 'e\u0301x']
 LAYOUTS = ['home', 'top-sticky', 'top-alt', 'trash-dir', 'top-alt-insecure', 'top-alt-link', 'home-deep', 'vol-fallback', 'home-ownvol', 'trash-dir-rel']
 DEEP = '/'.join(('%dé' % i) + 'é' * 99 for i in range(7))          # seven levels of 100 two-byte characters: the Path= line is longer than 4096 bytes
 SORTS = ['date', 'path', 'none']
